@@ -160,6 +160,8 @@ def jobs(tier):
                  {"space": "S2-expr", "expression depth<=": 2, "inner ops": s2.ExprGen.INNER_QUICK, "positions": s2.ExprGen.POSITIONS}, 900),
         ]
     return raisejobs + [forjob, loopjob, passjob, passjob2,
+        _job("S2-ctl-c3-core-kinds", lambda ch: s2.CtlGen(ch, 3, 2, 1, kinds=["if", "ifelse", "while"]), 3,
+             {"space": "S2-ctl", "compounds<=": 3, "kinds": ["if", "ifelse", "while"], "depth<=": 2, "terminators<=": 1}, 1800),
         _job("S2-ctl-c2-d3-t2", lambda ch: s2.CtlGen(ch, 2, 3, 2), 3,
              {"space": "S2-ctl", "compounds<=": 2, "depth<=": 3, "terminators<=": 2, "tests": "external calls"}, 1800),
         _job("S2-ctl-c2-argtests", lambda ch: s2.CtlGen(ch, 2, 2, 1, arg_tests=True), 3,
